@@ -187,8 +187,11 @@ def judge_hscale(case):
     if case["twice"]:
         h.scale(1)
         after2 = flat_bins(h.bins, dim)
+        # (the scale was recomputed above from the rescaled bins: with cancelling contents its
+        # relative error is eps times the condition number sum|c_i| vol_i / |sum c_i vol_i|)
+        cond = max(1.0, tot / abs(float(s)))
         for idx in before:
-            if not close(after2[idx], before[idx] / float(I), rel=16 * EPS, abs_=1e-300):
+            if not close(after2[idx], before[idx] / float(I), rel=32 * EPS * cond, abs_=1e-300):
                 raise Violation("histogram-second-rescale-wrong", "cell %r: %r" % (idx, after2[idx]))
     return {"nontrivial": _nontrivial_hist(spec), "classes": ["dim=%d" % dim, spec["kind"]]}
 
